@@ -537,13 +537,19 @@ func cmdCheck(args []string) {
 				violations++
 				continue
 			}
-			extraFuncs = append(extraFuncs, f+" (ring contract)")
+			kind := "ring contract"
+			if eng.contracts[f+"#gexp"] != nil {
+				kind = "exponent contract (discrete-log interpreter)"
+			} else if eng.contracts[f+"#exp"] != nil {
+				kind = "exponent contract (square-and-multiply chain)"
+			}
+			extraFuncs = append(extraFuncs, f+" ("+kind+")")
 			for _, o := range obs {
 				nr++
 				if o.OK {
 					okr++
 					if okr%11 == 1 && len(samples) < 10 {
-						samples = append(samples, map[string]string{"obligation": o.Name, "pos": o.Pos, "solver": "polynomial normal form mod P (govc ring)"})
+						samples = append(samples, map[string]string{"obligation": o.Name, "pos": o.Pos, "solver": "exact polynomial arithmetic (govc ring/gexp)"})
 					}
 					continue
 				}
@@ -575,7 +581,7 @@ func cmdCheck(args []string) {
 		}
 		total += nr
 		discharged += okr
-		solverCount["polynomial normal form mod P (govc ring)"] += okr
+		solverCount["exact polynomial arithmetic (govc ring/gexp)"] += okr
 	}
 	// extra deciding commands (e.g. the assembly verifier)
 	var extras []map[string]interface{}
